@@ -1049,7 +1049,7 @@ func main() {
 	sn := runSnappy(r)
 
 	x := &explorer{run: r, evCnt: map[string]int64{}, violCnt: map[string]int{},
-		pool: crashfs.NewPool(runtime.NumCPU(), []string{"--worker"}, []string{"GOGC=800", "GOMAXPROCS=1"}, 240*time.Second)}
+		pool: crashfs.NewPool(runtime.NumCPU(), []string{"--worker"}, []string{"GOGC=800", "GOMAXPROCS=1", "VERIF_CPU_WATCHDOG_S=60"}, 240*time.Second)}
 	samples := &ev.Samples{N: 4}
 	cfgs := allCfgs()
 	if only := os.Getenv("C16_CFG"); only != "" {
